@@ -793,14 +793,28 @@ class SamplingMethod(DirectMethod):
     def get_signals_at(self, stage, k=-1):
         return veccat(*[e.sampled[k] for e in self.signals.values()])
 
-    def get_p_sys(self, stage, k, include_signals=True):
+    def get_p_sys(self, stage, k, include_signals=True, signals_sampled=None):
+        """Parameter/variable vector of the system dynamics, ordered like vertcat(stage.p, stage.v)
+
+        signals_sampled : optional list with one entry per signal of self.signals (same order);
+            replaces the values of the B-spline signals at control node k (may have several columns)
+        """
+        ncol = 1
+        if signals_sampled is not None and len(signals_sampled)>0:
+            ncol = signals_sampled[0].shape[1]
+        index = dict((hash(s), i) for i, s in enumerate(self.signals.keys()))
+        def signals(symbols):
+            if signals_sampled is None:
+                if not include_signals: return []
+                return [self.signals[s].sampled[k] for s in symbols]
+            return [signals_sampled[index[hash(s)]] for s in symbols]
         args = [vvcat(self.P),
                 self.get_p_control_at(stage, k),
-                self.get_p_control_plus_at(stage, k),
-                self.V, self.get_v_control_at(stage, k),
-                self.get_v_control_plus_at(stage, k)]
-        if include_signals:
-            args.append(self.get_signals_at(stage, k))
+                self.get_p_control_plus_at(stage, k)]
+        args = [repmat(e, 1, ncol) for e in args if e is not None] + signals(stage.parameters['bspline'])
+        args_v = [self.V, self.get_v_control_at(stage, k),
+                  self.get_v_control_plus_at(stage, k)]
+        args += [repmat(e, 1, ncol) for e in args_v if e is not None] + signals(stage.variables['bspline'])
         return vcat(args)
 
     def eval(self, stage, expr):
